@@ -285,6 +285,15 @@ func rdsCase(k *engine.Case) {
 	cfg.start = 1000 + int64(r.Intn(1000))
 	steps := 8 + r.Intn(33)
 	cfg.prefix = []string{"p:", "c05/", "ttl."}[r.Intn(3)]
+	// one case in eight works on a population larger than one SCAN page (10 keys by default):
+	// every key is set first, with a long default ttl so that they stay alive together
+	large := r.Intn(8) == 0
+	if large {
+		cfg.nkeys = 12 + r.Intn(14)
+		cfg.size = cfg.nkeys + r.Intn(3)
+		cfg.defTTL = 40 + int64(r.Intn(20))
+		steps = cfg.nkeys + 10 + r.Intn(30)
+	}
 
 	restore := installClock(cfg.start)
 	defer restore()
@@ -300,6 +309,11 @@ func rdsCase(k *engine.Case) {
 		ok := false
 		for try := 0; try < 6 && !ok; try++ {
 			o = genRdsOp(r, cfg.nkeys)
+			if large && len(ops) < cfg.nkeys {
+				o = op{kind: oSet, key: len(ops)} // populate
+			} else if large && r.Intn(6) == 0 {
+				o = op{kind: oClear}
+			}
 			ok = sh.inDomain(&o)
 			if !ok {
 				cnt["rds_restricted_redraws"]++
@@ -320,6 +334,9 @@ func rdsCase(k *engine.Case) {
 		ops = append(ops, o)
 	}
 
+	if large {
+		cnt["rds_large_population_cases"]++
+	}
 	lg := &runLog{}
 	defer flushOnPanic(k, lg)
 	v, nontrivial := runRds(cfg, ops, cnt, lg)
